@@ -6,9 +6,22 @@ Sections  `begin kind=router`:
   route m=<method> p=<pattern> h=<id|nil>   => clean=<path.Clean(pattern)> ok|dup|badmethod|badpath|empty|err:<..>
   req   m=<method> p=<path> n=<repeats>     => clean=<path.Clean(path)> <outcome> [| <outcome>]…   (distinct outcomes, sorted)
       outcome:  h=<id> vars=<k=v,…sorted>  |  405 allow=<methods sorted,>  |  404
+                |  nf=<id> code=<c>  (custom not-found handler ran)  |  na=<id> code=<c> [allow=…]  (custom not-allowed handler)
+  setnf h=<id|nil> | setna h=<id|nil>       => ok        (patRouter.SetNotFoundHandler / SetNotAllowedHandler)
+Sections  `begin kind=server` (rest.NewServer + AddRoutes + engine.bindRoutes, no listener):
+  opt nf=<id|nil> | opt na=<id|nil>         => ok        (rest.WithNotFoundHandler / WithNotAllowedHandler, before the server is built)
+  group [pfx=<group>] r=<m>,<path>,<id>…    => paths=<…>  (AddRoutes [WithPrefix]; the paths Routes() reports)
+  bind                                      => ok|badmethod|badpath|dup   (engine.bindRoutes: first error)
+  req … as above
 Sections  `begin kind=tree` (core/search.Tree directly, raw strings):
   tadd p=<route> h=<id|nil>   => ok|dup|dupslash|notfromroot|empty
   tsearch p=<route> n=<k>     => h=<id> vars=… | none          (distinct outcomes, sorted, ` | `-separated)
+
+Every line is (1) compared with the model (mismatch) and (2) judged by a monitor that knows only the plain
+route table (violation): `Spec.monitorObs` for requests (sound: PropsServer.monitor_sound,
+monitor_determinism_sound), `Spec.register` / `Spec.bindTable` for registrations (monitor_registration_sound,
+bindAll_represents), `Spec.rawAddVerdict` / `Spec.matchesRawB` for the raw tree (raw_add_monitor_sound,
+tree_search_raw).
 -/
 import GoZero.Base.Trace
 import GoZero.C09.Spec
